@@ -815,6 +815,9 @@ func (q *aworld) drain() {
 	for _, o := range done {
 		q.observeOp(o)
 	}
+	if q.stopBegan > 0 && !q.tailDone && q.opsInFlight() == 0 && q.w.NumPending() == 0 {
+		q.awaitDrainTail()
+	}
 	for _, st := range q.stops {
 		if st.observed {
 			continue
@@ -834,6 +837,56 @@ func (q *aworld) drain() {
 		}
 	}
 	q.flushViolations()
+}
+
+// awaitDrainTail runs once a Stop has begun and nothing is left in flight (no
+// operation without its results, no parked port call). From here the background
+// drain only has to notice that and release its pools; how many of its 1 ms
+// polls that takes depends on how fast the released ants workers exit, i.e. on
+// the Go scheduler. The harness therefore lets the tail finish as ONE step and
+// records the Stop callers that return inside it without distinguishing nil
+// from an expired deadline: nothing is in flight, so no clause of C41 depends
+// on which of the two they got.
+func (q *aworld) awaitDrainTail() {
+	q.tailDone = true
+	stopped := false
+	for i := 0; i < 150 && !stopped; i++ {
+		time.Sleep(20 * time.Millisecond)
+		ctx, cancel := context.WithCancel(context.Background())
+		cancel()
+		stopped = q.g.Stop(ctx) == nil // a stopped group answers nil before looking at the context
+	}
+	simkit.Wait()
+	if !stopped {
+		if q.r.Property == "C41" {
+			q.violate("drain-stuck", "nothing was in flight for 3 s of simulated time after Stop began, yet the group never reported stopped")
+		} else {
+			q.r.Probe("other_property_violation:drain-stuck")
+			q.tainted = true
+		}
+		return
+	}
+	q.stopDone = true
+	q.r.Probe("stop.drain_tail_completed")
+	q.r.Logf("  drain tail: nothing in flight, group stopped")
+	for _, st := range q.stops {
+		if st.observed {
+			continue
+		}
+		st.mu.Lock()
+		fin := st.done
+		st.mu.Unlock()
+		if !fin {
+			q.violate("drain-stuck", "the group is stopped but Stop caller %d has not returned", st.id)
+			continue
+		}
+		st.observed = true
+		q.r.Probe("stop.returned_in_drain_tail")
+		q.r.Logf("  stop%d returned (drain tail)", st.id)
+	}
+	if !q.finale && q.opsLeft > 2 {
+		q.opsLeft = 2
+	}
 }
 
 func (q *aworld) observeStop(st *stopOp, err error) {
